@@ -70,6 +70,9 @@ type conn struct {
 
 	mu            sync.Mutex
 	subscriptions map[string]*reactive.Rerunner
+	// mutations holds the ids in subscriptions that belong to in-flight
+	// mutations. They were never reported to the subscriptionLogger.
+	mutations map[string]struct{}
 
 	alwaysSpawnGoroutineFunc AlwaysSpawnGoroutineFunc
 	minRerunIntervalFunc     RerunIntervalFunc
@@ -266,6 +269,10 @@ func (c *conn) handleMutate(in *inEnvelope) error {
 	c.mu.Lock()
 	defer c.mu.Unlock()
 
+	if _, ok := c.subscriptions[id]; ok {
+		return NewSafeError("duplicate subscription")
+	}
+
 	tags := map[string]string{"url": c.url, "query": mutate.Query, "queryVariables": mustMarshalJson(mutate.Variables), "id": id}
 
 	query, err := Parse(mutate.Query, mutate.Variables)
@@ -284,6 +291,7 @@ func (c *conn) handleMutate(in *inEnvelope) error {
 
 	initial := true
 	e := c.executor
+	c.mutations[id] = struct{}{}
 	c.subscriptions[id] = reactive.NewRerunner(c.ctx, func(ctx context.Context) (interface{}, error) {
 		// Serialize all mutates for a given connection.
 		c.mutateMu.Lock()
@@ -370,10 +378,20 @@ func (c *conn) closeSubscription(id string) {
 	defer c.mu.Unlock()
 
 	if runner, ok := c.subscriptions[id]; ok {
-		runner.Stop()
-		delete(c.subscriptions, id)
-		c.subscriptionLogger.Unsubscribe(c.ctx, id)
+		c.removeSubscriptionLocked(id, runner)
 	}
+}
+
+// removeSubscriptionLocked stops and forgets a rerunner. Only subscriptions
+// are reported to the subscriptionLogger; mutations never logged a Subscribe.
+func (c *conn) removeSubscriptionLocked(id string, runner *reactive.Rerunner) {
+	runner.Stop()
+	delete(c.subscriptions, id)
+	if _, ok := c.mutations[id]; ok {
+		delete(c.mutations, id)
+		return
+	}
+	c.subscriptionLogger.Unsubscribe(c.ctx, id)
 }
 
 func (c *conn) closeSubscriptions() {
@@ -381,9 +399,7 @@ func (c *conn) closeSubscriptions() {
 	defer c.mu.Unlock()
 
 	for id, runner := range c.subscriptions {
-		runner.Stop()
-		delete(c.subscriptions, id)
-		c.subscriptionLogger.Unsubscribe(c.ctx, id)
+		c.removeSubscriptionLocked(id, runner)
 	}
 }
 
@@ -500,6 +516,7 @@ func CreateConnection(ctx context.Context, socket JSONSocket, schema *Schema, op
 		mutationSchema:     schema,
 		executor:           NewExecutor(NewImmediateGoroutineScheduler()),
 		subscriptions:      make(map[string]*reactive.Rerunner),
+		mutations:          make(map[string]struct{}),
 		subscriptionLogger: &nopSubscriptionLogger{},
 		logger:             &nopGraphqlLogger{},
 		makeCtx: func(ctx context.Context) context.Context {
